@@ -126,7 +126,7 @@ class Ctx:
         """a violation established without a solver query on this obligation (e.g. real exception on a feasible path)."""
         return self._finish(name, "sat", model, 0.0, "path", replay, key, None, detail=detail)
 
-    def ok(self, name, how="path", detail=None):
+    def ok(self, name, how="path", detail=None, key=None, replay=None):
         return self._rec(name, "unsat", 0.0, "path", how=how, detail=detail)
 
     def model_for(self, pc=(), assume=()):
@@ -336,6 +336,9 @@ def finish(prop, results, t_start, design_ref, bounds, outside, assumptions, ext
             inconclusive.append(r)
     os.makedirs(os.path.join(VERIF, "evidence"), exist_ok=True)
     os.makedirs(os.path.join(VERIF, "scratch", "replay"), exist_ok=True)
+    for _f in os.listdir(os.path.join(VERIF, "scratch", "replay")):
+        if _f.startswith(prop + "_"):
+            os.remove(os.path.join(VERIF, "scratch", "replay", _f))
     for e, rs in known_hits.values():
         print(f"KNOWN-FINDING: property={prop} {e['key']}: {e['what']} ({len(rs)} obligation(s))")
     replay_paths = []
